@@ -442,6 +442,22 @@ theorem tie_fillSlice_fromArray_sem (l : List J) (c : Cfg) (isSlice : Bool) :
   · simp [fromArrayBlock]
   · simp [fromArrayValue]
 
+/-- `processNamedField` (`fieldCore`): options resolved against the input first, the ignore key, an `env=` value, the
+canonical key, the valuer by `inherit`, the lookup; absent ⇒ `processNamedFieldWithoutValue`; under WithFromArray the first
+element of a non-empty list for a non-slice field; then `processNamedFieldWithValue` -/
+theorem tie_namedFieldShape :
+    namedFieldShape =
+      ["if !field.IsExported() {", "return", "}", "call u.parseOptionsWithContext", "if err != nil {", "return",
+       "}", "if key == ignoreKey {", "return", "}", "call join", "if opts != nil && len(opts.EnvVar) > 0 {",
+       "call proc.Env", "if len(envVal) > 0 {", "call u.processFieldWithEnvValue", "return", "}", "}",
+       "if u.opts.canonicalKey != nil {", "call u.opts.canonicalKey", "}", "call createValuer", "call getValue",
+       "if u.opts.fillDefault {", "if !value.IsZero() {", "return", "}", "call u.processNamedFieldWithoutValue",
+       "return", "}", "else{", "if !hasValue {", "call u.processNamedFieldWithoutValue", "return", "}", "}",
+       "if u.opts.fromArray && mapValue != nil {", "call field.Type.Kind",
+       "if fieldKind != reflect.Slice && fieldKind != reflect.Array {",
+       "if valueKind == reflect.Slice || valueKind == reflect.Array {", "if val.Len() > 0 {", "call val.Index",
+       "call val.Index(0).Interface", "}", "}", "}", "}", "call u.processNamedFieldWithValue", "return"] := by decide
+
 /-! ### round 4: front ends, glue between the packages, valuers -/
 
 /-- core/mapping/valuer.go: `simpleValuer` looks at the current node only; `Parent()` wraps the parent in a `recursiveValuer`;
